@@ -65,6 +65,21 @@ def generate(tape, tier="quick"):
             else:
                 b["axes"] = [list(x) for x in b["axes"]]
                 b["axes"][k] = [x + 0.25 for x in b["axes"][k]]
+    if tape.chance(1, 300):
+        # one long axis (more than two thousand nodes): the other grid is the same in another layout, or differs from
+        # it in one to three neighbouring nodes somewhere along the axis
+        n = tape.rng_int(2100, 3000)
+        ax = [float(i) for i in range(n)]
+        a = {"type": "rectilinear", "dims": [n] + ([3] if tape.chance(1, 2) else []), "order": tape.choice(["F", "C"]),
+             "rev": tape.chance(1, 2), "inc": [True, not tape.chance(1, 3)], "loc": tape.choice(["cells", "points"]),
+             "axes": [ax] + [[0.0, 1.0, 3.0]]}
+        a["inc"], a["axes"] = a["inc"][: len(a["dims"])], a["axes"][: len(a["dims"])]
+        b = relayout(tape, a)
+        rel = tape.choice(["relayout", "perturbed"])
+        if rel == "perturbed":
+            k0, w = tape.rng_int(5, n - 10), tape.rng_int(1, 3)
+            b["axes"] = [list(x) for x in b["axes"]]
+            b["axes"][0] = [x + (0.4 if k0 <= i < k0 + w else 0.0) for i, x in enumerate(b["axes"][0])]
     coef = [tape.choice([0.0, 1.0, 5.0])] + [tape.choice([1.0, 10.0, 100.0, -2.0]) for _ in range(3)]
     sc = {"engine": "G2", "a": a, "b": b, "rel": rel, "coef": coef, "masked": tape.chance(1, 3),
           "scale": tape.chance(1, 4), "npub": tape.rng_int(1, 3), "static": tape.chance(1, 4), "units": tape.choice([("m", "m"), ("m", "km"), ("", "")])}
